@@ -222,6 +222,11 @@ func (s *Scanner) Scan(src interface{}) error {
 	// for interfaces.
 	switch i.(type) {
 	case *[]byte:
+		// With the json tag the Valuer JSON-encodes the bytes; leave decoding to the
+		// tag handling below.
+		if s.Tags.Contains("json") {
+			break
+		}
 		if str, ok := src.(string); ok {
 			s.value.Set(reflect.ValueOf([]byte(str)))
 			return nil
